@@ -531,3 +531,161 @@ func H_C02_flush_many() {
 	check("after-later-add-again")
 	vCover("ran")
 }
+
+func init() {
+	vHarnesses["H_C02_filter_reuse"] = H_C02_filter_reuse
+	vHarnesses["H_C02_multi_k"] = H_C02_multi_k
+}
+
+// id restrictions of very different sizes one after the other (the restriction object is pooled and reused):
+// twelve vectors, a first search restricted to 9..11 ids (some unknown), then one restricted to 1..3 ids, then a
+// large one again — every answer is exact for ITS OWN restriction (sound for hnsw)
+func H_C02_filter_reuse() {
+	kind := vChoose("kind", 5)
+	vPQM, vPQNbits, vPQConcreteCB = 2, 1, true
+	u := vMakeIndexC(kind, L2Squared, 2, 2, false)
+	var ids []uint32
+	for i := 0; i < 12; i++ {
+		id := uint32(40 - 3*i)
+		ids = append(ids, id)
+		vAddBoth(u.idx, u.m, id, []float32{float32(i%5) + 0.5, float32(i/3) - 1.25})
+	}
+	q := vCopy([][]float32{{1.75, 0.5}, {-0.25, 2}}[vChoose("query", 2)])
+	k := vInt("k")
+	run := func(filt []uint32, label string) {
+		res, err := u.idx.NewSearch().WithQuery(vCopy(q)).WithK(k).WithNProbes(0).WithEfSearch(32).WithDocumentIDs(filt...).Execute()
+		vAssert(err == nil, label+"-search-ok")
+		vTag("at=" + label)
+		E := u.m.eligible(q, 0, filt)
+		if kind == vKHNSW {
+			vCheckSound(res, E, k)
+		} else {
+			vCheckExact(res, E, k)
+		}
+	}
+	big := append([]uint32{}, ids[vChoose("big_from", 2):9+2*vChoose("big_more", 2)]...)
+	big = append(big, 1000, 1001)
+	run(big, "large-restriction")
+	small := [][]uint32{{ids[3]}, {ids[11], ids[0]}, {ids[10], 1000, ids[5]}, {ids[1], ids[2], ids[9]}}[vChoose("small", 4)]
+	run(small, "small-restriction-after-large")
+	if vChoose("third", 2) == 1 {
+		run(ids[2:11], "large-restriction-after-small")
+	} else {
+		run(nil, "unrestricted-after-small")
+	}
+	vCover("ran")
+}
+
+// two queries whose per-query top-k lists differ in membership (k = 2 of 3 live vectors): an id found by one query
+// only contributes one score, an id found by both contributes two; the aggregated list is ordered by the aggregated
+// score and cut to k.  Distances of one query are assumed pairwise distinct (ties at a per-query k-th place are
+// outside this clause).  Exact kinds only (the per-query lists of hnsw are not determined).
+func H_C02_multi_k() {
+	kind := []int{vKFlat, vKIVF, vKPQ}[vChoose("kind", 3)]
+	agg := vAggKinds[vChoose("agg", 3)]
+	u := vMakeIndex(kind, L2Squared, 1, 1)
+	u.populate(3, 1)
+	q1, q2 := vVec("q1", 1), vVec("q2", 1)
+	const k = 2
+	res, err := u.idx.NewSearch().WithQuery(q1, q2).WithK(k).WithNProbes(0).WithScoreAggregation(agg).Execute()
+	vAssert(err == nil, "multi-query-ok")
+	n := len(u.m.entries)
+	d := [2][]float32{make([]float32, n), make([]float32, n)}
+	for i := range u.m.entries {
+		d[0][i] = u.m.scoreFn(q1, &u.m.entries[i])
+		d[1][i] = u.m.scoreFn(q2, &u.m.entries[i])
+		vAssume(vAnd(d[0][i] == d[0][i], d[1][i] == d[1][i]))
+	}
+	for qi := 0; qi < 2; qi++ {
+		for i := 0; i < n; i++ {
+			for j := 0; j < i; j++ {
+				vAssume(d[qi][i] != d[qi][j])
+			}
+		}
+	}
+	// membership of entry i in the top-k of query qi: fewer than k entries are strictly nearer
+	in := [2][]bool{make([]bool, n), make([]bool, n)}
+	for qi := 0; qi < 2; qi++ {
+		for i := 0; i < n; i++ {
+			nearer := 0
+			for j := 0; j < n; j++ {
+				if j != i && d[qi][j] < d[qi][i] {
+					nearer++
+				}
+			}
+			in[qi][i] = nearer < k
+		}
+	}
+	type exp struct {
+		id uint32
+		sc float32
+	}
+	var want []exp
+	for i := 0; i < n; i++ {
+		var scs []float32
+		for qi := 0; qi < 2; qi++ {
+			if in[qi][i] {
+				scs = append(scs, d[qi][i])
+			}
+		}
+		if len(scs) == 0 {
+			continue
+		}
+		var sc float32
+		switch agg {
+		case SumAggregation, MeanAggregation:
+			sc = float32(0)
+			for _, s := range scs {
+				sc += s
+			}
+			if agg == MeanAggregation {
+				sc = sc / float32(len(scs))
+			}
+		case MaxAggregation:
+			sc = scs[0]
+			if len(scs) == 2 {
+				sc = vIteF32(scs[1] > scs[0], scs[1], scs[0])
+			}
+		}
+		vAssume(sc == sc)
+		want = append(want, exp{u.m.entries[i].id, sc})
+		if len(scs) == 1 {
+			vCover("found-by-one-query-only")
+		}
+	}
+	wantLen := len(want)
+	if wantLen > k {
+		wantLen = k
+	}
+	vAssert(len(res) == wantLen, "multi-k-count")
+	for i, r := range res {
+		found := false
+		for _, w := range want {
+			if w.id == r.GetId() {
+				found = true
+				vAssert(vSameF32(r.Score, w.sc), "multi-k-score-is-the-rule-over-the-lists-that-hold-the-id")
+			}
+		}
+		vAssert(found, "multi-k-result-is-in-some-per-query-list")
+		for j := 0; j < i; j++ {
+			vAssert(res[j].GetId() != r.GetId(), "multi-k-each-id-once")
+		}
+		if i > 0 {
+			vAssert(!(r.Score < res[i-1].Score), "multi-k-ascending")
+		}
+	}
+	for _, w := range want {
+		ret := false
+		for _, r := range res {
+			if r.GetId() == w.id {
+				ret = true
+			}
+		}
+		if !ret {
+			for _, r := range res {
+				vAssert(!(w.sc < r.Score), "multi-k-best-aggregated-scores-kept")
+			}
+		}
+	}
+	vCover("ran")
+}
